@@ -122,4 +122,48 @@ SeriesClip(s, lo, hi) == IF ~Clippable(s.dt) THEN Unspecified
                          ELSE LET c == ClipCol([dt |-> s.dt, vals |-> s.vals], lo, hi) IN MkSeries(s.index, c.vals, c.dt, s.name)
 FrameClip(f, lo, hi) == IF \E j \in 1..NCols(f) : ~Clippable(f.cols[j].dt) THEN Unspecified
                         ELSE MkFrame(f.index, f.columns, [j \in 1..NCols(f) |-> ClipCol(f.cols[j], lo, hi)], f.name)
+
+(* ---- hierarchical relabelling: labels of a hierarchical axis are <<"t", <<l1, ..., ld>>>> ---------------------- *)
+AddLevel(l, x) == IF Tag(l) = "t" THEN <<"t", <<x>> \o l[2]>> ELSE <<"t", <<x, l>>>>
+DropOuter(l, k) == LET rest == SubSeq(l[2], k + 1, Len(l[2])) IN IF Len(rest) = 1 THEN rest[1] ELSE <<"t", rest>>
+LabelsLevelAdd(labs, x) == [i \in 1..Len(labs) |-> AddLevel(labs[i], x)]
+LabelsLevelDrop(labs, k) == [i \in 1..Len(labs) |-> DropOuter(labs[i], k)]
+HDepth(labs) == Len(labs[1][2])
+(* rehierarch: the levels are reordered by the depth map dm (0-based source depths), then the rows are put in the      *)
+(* order of a stable sort on, level by level, the rank of first appearance of each label within its source level       *)
+ColumnAt(labs, d) == [i \in 1..Len(labs) |-> labs[i][2][d]]
+RankIn(labs, d, x) == Find(Dedupe(ColumnAt(labs, d)), x)
+RECURSIVE RankLexLt(_, _, _, _, _)
+RankLexLt(labs, dm, k, a, b) ==
+  IF k > Len(dm) THEN FALSE
+  ELSE LET d == dm[k] + 1
+           ra == RankIn(labs, d, labs[a + 1][2][d])
+           rb == RankIn(labs, d, labs[b + 1][2][d])
+       IN IF ra # rb THEN ra < rb ELSE RankLexLt(labs, dm, k + 1, a, b)
+RehierOrder(labs, dm) == StableArgsort(Len(labs), LAMBDA a, b : RankLexLt(labs, dm, 1, a, b))
+PermuteLabel(l, dm) == <<"t", [k \in 1..Len(dm) |-> l[2][dm[k] + 1]]>>
+ValidDepthMap(labs, dm) == Len(dm) = HDepth(labs) /\ \A d \in 0..(HDepth(labs) - 1) : Member(dm, d)
+RehierLabels(labs, dm) == LET ord == RehierOrder(labs, dm) IN [i \in 1..Len(labs) |-> PermuteLabel(labs[ord[i] + 1], dm)]
+
+SeriesLevelAdd(s, x) == MkSeries(LabelsLevelAdd(s.index, x), s.vals, s.dt, s.name)
+(* as built the levels are re-used: after dropping an outer level the labels of the next level are concatenated     *)
+(* parent by parent and must be unique ACROSS the dropped parents, which is stronger than unique result labels     *)
+DropOK(labs, k) == \A c \in 1..k : \A i, j \in 1..Len(labs) :
+                      labs[i][2][c + 1] = labs[j][2][c + 1] => SubSeq(labs[i][2], 1, c) = SubSeq(labs[j][2], 1, c)
+SeriesLevelDrop(s, k) == IF ~DropOK(s.index, k) THEN Err("init_nonunique") ELSE MkSeries(LabelsLevelDrop(s.index, k), s.vals, s.dt, s.name)
+SeriesRehierarch(s, dm) == IF ~ValidDepthMap(s.index, dm) THEN Err("runtime")
+                           ELSE MkSeries(RehierLabels(s.index, dm), Take(s.vals, RehierOrder(s.index, dm)), s.dt, s.name)
+(* Frames: axis 0 = index, 1 = columns; the other axis and every cell stay where their label goes *)
+FrameLevelAdd(f, axis, x) == IF axis = 0 THEN MkFrame(LabelsLevelAdd(f.index, x), f.columns, f.cols, f.name)
+                             ELSE MkFrame(f.index, LabelsLevelAdd(f.columns, x), f.cols, f.name)
+FrameLevelDrop(f, axis, k) ==
+  LET labs == LabelsLevelDrop(IF axis = 0 THEN f.index ELSE f.columns, k)
+  IN IF ~DropOK(IF axis = 0 THEN f.index ELSE f.columns, k) THEN Err("init_nonunique")
+     ELSE IF axis = 0 THEN MkFrame(labs, f.columns, f.cols, f.name) ELSE MkFrame(f.index, labs, f.cols, f.name)
+FrameRehierarch(f, axis, dm) ==
+  LET src == IF axis = 0 THEN f.index ELSE f.columns IN
+  IF ~ValidDepthMap(src, dm) THEN Err("runtime")
+  ELSE LET ord == RehierOrder(src, dm) IN
+       IF axis = 0 THEN MkFrame(RehierLabels(src, dm), f.columns, [j \in 1..NCols(f) |-> [dt |-> f.cols[j].dt, vals |-> Take(f.cols[j].vals, ord)]], f.name)
+       ELSE MkFrame(f.index, RehierLabels(src, dm), Take(f.cols, ord), f.name)
 =============================================================================
